@@ -183,6 +183,9 @@ func cmdCheck(args []string) int {
 	tmp, _ := os.MkdirTemp("", "govc")
 	defer os.RemoveAll(tmp)
 	failDir := filepath.Join(vd, "replays", prop)
+	if os.Getenv("VERIF_NOEVIDENCE") != "" {
+		failDir = filepath.Join(tmp, "replays", prop)
+	}
 	os.RemoveAll(failDir)
 	Solve(frs, tmp, timeout, filepath.Join(failDir, "smt"))
 	if *tier == "thorough" {
@@ -235,7 +238,7 @@ func cmdCheck(args []string) int {
 				continue
 			}
 			// replay
-			rp := writeReplay(vd, prop, fr, o, cfg, e)
+			rp := writeReplay(vd, filepath.Dir(failDir), prop, fr, o, cfg, e)
 			violations++
 			if rp.Reproduced {
 				lines = append(lines, fmt.Sprintf("VIOLATION property=%s replay=%s obligation=%s/%s failing-input-replayed", prop, rp.Path, fr.Key, o.Name))
@@ -258,6 +261,9 @@ func cmdCheck(args []string) int {
 			}
 		}
 		for _, n := range names {
+			if i := strings.Index(n, "@ret"); i >= 0 {
+				continue
+			}
 			if !have[n] && (strings.HasPrefix(n, "post:") || strings.HasPrefix(n, "inv-") || strings.HasPrefix(n, "pre@")) {
 				undecided = append(undecided, fmt.Sprintf("%s: baseline obligation %q was not generated (contract or code structure changed)", fn, n))
 			}
@@ -342,9 +348,11 @@ func cmdCheck(args []string) int {
 		"property_id": prop, "tier": *tier, "seed": seed, "level": level, "coverage": cov,
 		"assumptions": assumptions, "wall_s": time.Since(t0).Seconds(), "violations": violations,
 	}
-	os.MkdirAll(filepath.Join(vd, "evidence"), 0o755)
-	d, _ := json.MarshalIndent(ev, "", " ")
-	os.WriteFile(filepath.Join(vd, "evidence", prop+".json"), d, 0o644)
+	if os.Getenv("VERIF_NOEVIDENCE") == "" {
+		os.MkdirAll(filepath.Join(vd, "evidence"), 0o755)
+		d, _ := json.MarshalIndent(ev, "", " ")
+		os.WriteFile(filepath.Join(vd, "evidence", prop+".json"), d, 0o644)
+	}
 
 	for _, l := range lines {
 		fmt.Println(l)
